@@ -232,7 +232,8 @@ Print Assumptions C09_delete_absent.
 
 (* Every state the repaired code can reach with ANY iteration orders of Delete and GC
    ([Hist]; [any] = true also allows reopening the store at arbitrary points, also on an
-   index.json that names only the tagged descriptors: OReopen / OForeign) is well-formed
+   index.json that names only the tagged descriptors: OReopen / OForeign, and a GC
+   cancelled in the sweep for every directory order and every k) is well-formed
    (the hypothesis of C09_delete_exact) and free of stale tag-set entries; unless the store
    is reopened at an arbitrary point every stored blob is a graph node, so [Gone] and
    C09_delete_exact speak about the storage.  After an arbitrary reopen blobs that
